@@ -82,20 +82,14 @@ def run_real(ai, ops):
         try:
             words = api.npu_generate_register_command_stream(ops, accs[ai])
             return list(words), rec.ops, None
-        except ByteAlignmentError:
-            return None, rec.ops, "err:align"
-        except ByteSizeError:
-            return None, rec.ops, "err:size"
-        except VelaError:
-            return None, rec.ops, "err:vela"
-        except AssertionError:
-            return None, rec.ops, "err:assert"
-        except TypeError:
-            return None, rec.ops, "err:type"
-        except KeyError:
-            return None, rec.ops, "err:key"
-        except IndexError:
-            return None, rec.ops, "err:index"
+        except Exception as e:  # noqa: B902  classified below; anything unknown is re-raised
+            kinds = [(ByteAlignmentError, "err:align"), (ByteSizeError, "err:size"), (VelaError, "err:vela"),
+                     (AssertionError, "err:assert"), (TypeError, "err:type"), (KeyError, "err:key"), (IndexError, "err:index")]
+            for cls, kind in kinds:
+                if isinstance(e, cls):
+                    # a rejection by a mechanism outside the emitter model (block config fit, memory limits) is labelled as such
+                    return None, rec.ops, ("unmodelled:" + rec.unmodelled) if rec.unmodelled else kind
+            raise
 
 
 def op_stats(ops):
@@ -279,9 +273,22 @@ def inject(rng, ops, arch, defect):
                  and (o.activation is None or o.activation.op_type not in (a.NpuActivationOp.TANH, a.NpuActivationOp.SIGMOID))]
         if not cands:
             return False
+        # both feature maps must already carry a scale: otherwise the injection changes the accumulator format and the
+        # block configuration may stop fitting (an earlier, un-modelled rejection)
+        cands = [o for o in cands if o.ifm.quantization is not None and o.ifm.quantization.scale_f32 is not None
+                 and o.ofm.quantization is not None and o.ofm.quantization.scale_f32 is not None]
+        if not cands:
+            return False
         o = rng.choice(cands)
         o.ifm.quantization = a.NpuQuantization(scale_f32=0.003921568859368563, zero_point=o.ifm.quantization.zero_point)
         o.ofm.quantization = a.NpuQuantization(scale_f32=0.000244140625, zero_point=o.ofm.quantization.zero_point)
+        for other in blocks:        # the same NpuQuantization / feature map may be shared along a chain: every block config must still fit
+            try:
+                from ethosu.vela import register_command_stream_generator as g
+
+                g.get_arch_block_config(other, getattr(other, "block_traversal", a.NpuBlockTraversal.DEPTH_FIRST), arch)
+            except AssertionError:
+                return False
         return True
     if defect == "pool_no_padding":
         cands = [o for o in blocks if isinstance(o, a.NpuPoolingOperation)]
@@ -533,14 +540,24 @@ def main():
     mal = shard(malformed_batch, n_mal)
     mouts = ck.model([m["line"] for m in mal]) if mal else []
     mal_diff = []
+    no_oracle = 0
     for m, ans in zip(mal, mouts):
         got = ans.split()[0][len("model="):]
         want = m["real"]
         ck.count("malformed_" + m["defect"])
-        ck.count("malformed_outcome_" + want.split(":")[0] + (":" + want.split(":")[1] if want.startswith("err") else ""))
-        same = (got == want) if want.startswith("err") else got.startswith("ok:") and got == want
-        if not same:
+        ck.count("malformed_outcome_" + (":".join(want.split(":")[:2]) if not want.startswith("ok") else "ok"))
+        if want.startswith("unmodelled:"):
+            continue            # rejected by try_block_config / check_mem_limits: the emitter model has no opinion
+        if got == "err:oracle":
+            # the recorder could not supply an integer the model needs: a harness gap, never a model verdict
+            no_oracle += 1
+            ck.notes.append(f"no oracle for malformed list {m['idx']} (defect {m['defect']}, generator {want})")
+            continue
+        if got != want:
             mal_diff.append((m, got))
+    ck.count("malformed_without_oracle", no_oracle)
+    if no_oracle > max(3, len(mal) // 100):
+        raise common.InfraError(f"the recorder could not supply the oracle integers for {no_oracle} of {len(mal)} malformed lists")
     # failing-input search on the malformed stream: whatever the generator accepted must still satisfy the Spec
     acc_mal = [m for m in mal if m.get("spec_line")]
     for m, a in zip(acc_mal, ck.model([m["spec_line"] for m in acc_mal]) if acc_mal else []):
